@@ -171,16 +171,27 @@ pub struct Sink {
     pub styles: Vec<StyleEv>,
     pub limit: Option<usize>,
     pub writes: usize,
+    /// environment deviation: the k-th write call (0-based) and all later ones fail
+    pub fail_at: Option<usize>,
 }
 
 impl Sink {
     pub fn new(limit: Option<usize>) -> Sink {
-        Sink { buf: vec![], styles: vec![], limit, writes: 0 }
+        Sink { buf: vec![], styles: vec![], limit, writes: 0, fail_at: None }
+    }
+    pub fn failing(limit: Option<usize>, fail_at: usize) -> Sink {
+        Sink { buf: vec![], styles: vec![], limit, writes: 0, fail_at: Some(fail_at) }
     }
 }
 
 impl std::io::Write for Sink {
     fn write(&mut self, b: &[u8]) -> std::io::Result<usize> {
+        if let Some(k) = self.fail_at {
+            if self.writes >= k {
+                self.writes += 1;
+                return Err(std::io::Error::new(std::io::ErrorKind::Other, "injected write failure"));
+            }
+        }
         self.writes += 1;
         let n = match self.limit {
             Some(l) => b.len().min(l),
